@@ -11,7 +11,8 @@ from tcv.quiet import quiet
 
 RULE = ('seeded pairs of (pa, pb) assignments with different canonical JSON identity — random nested values, one-leaf mutations, '
         'look-alike atoms, adversarial splices of quotes and of the separators `, ` `###` `$$$` `=` — on a fixed 8-class pipeline '
-        '(chain of depth 6, a branch, an optional input); compared: locations of all tasks implementation vs model (literal keys) '
+        '(chain of depth 6, a branch, an optional input), plus values that print like the default of a parameter whose default is left out of the key, '
+        'plus a task with two inputs of the same task name from different namespaces whose computations are swapped; compared: locations of all tasks implementation vs model (literal keys) '
         'and the oracle "different descriptor => different data_path at every distance downstream"; '
         'distinct = distinct pairs; non-trivial = both values non-empty containers or strings')
 ASSUMPTIONS = ['sha256[:32] has no collisions on the key texts that occur (hypothesis hH of keyOf_eq_imp_text_eq)',
@@ -28,8 +29,21 @@ CLASSES = {
     'K5': {'name': 't5', 'group': '', 'params': [{'name': 'pc', 'default': 0}], 'inputs': [{'by': 'class', 'ref': 'K4'}], 'kind': 'json', 'run_args': []},
     'K6': {'name': 'br', 'group': '', 'params': [], 'inputs': [{'by': 'class', 'ref': 'K2'}, {'by': 'name', 'ref': 'opt', 'default': None}], 'kind': 'json', 'run_args': []},
     'K7': {'name': 'opt', 'group': '', 'params': [{'name': 'po', 'default': 1}], 'inputs': [], 'kind': 'json', 'run_args': []},
+    # parameters whose default is left out of the key (dont_persist_default_value): a value that merely LOOKS like the default
+    # (same text, other type) is another computation
+    'K8': {'name': 'dflt', 'group': '', 'params': [{'name': 'pd', 'default': 5, 'dpd': True}, {'name': 'pe', 'default': None, 'dpd': True},
+                                                   {'name': 'pf', 'default': [1, 2], 'dpd': True}, {'name': 'pg', 'default': '7', 'dpd': True},
+                                                   {'name': 'ph', 'default': {'a': 1}, 'dpd': True}],
+           'inputs': [{'by': 'class', 'ref': 'K0'}], 'kind': 'json', 'run_args': ['pd', 'pe', 'pf', 'pg', 'ph']},
+    'K9': {'name': 'dcons', 'group': '', 'params': [], 'inputs': [{'by': 'class', 'ref': 'K8'}], 'kind': 'json', 'run_args': ['dflt']},
+    # two inputs with the same task name from different namespaces
+    'K10': {'name': 'join', 'group': '', 'params': [], 'inputs': [{'by': 'name', 'ref': 'a::g:src'}, {'by': 'name', 'ref': 'b::g:src'}],
+            'kind': 'json', 'run_args': []},
+    'K11': {'name': 'jcons', 'group': '', 'params': [], 'inputs': [{'by': 'class', 'ref': 'K10'}], 'kind': 'json', 'run_args': []},
 }
 CHAIN = ['K0', 'K1', 'K2', 'K3', 'K4', 'K5', 'K6']
+LOOKALIKES = {'pd': ['5', [5], '5 ', {'5': 5}], 'pe': ['None', 'null', False, '', 0, []], 'pf': ['[1, 2]', [1, '2'], [[1, 2]], [1, 2, None]],
+              'pg': [7, '7 ', ['7'], "'7'"], 'ph': ["{'a': 1}", {'a': '1'}, [['a', 1]], {'a': 1, 'b': None}]}
 
 
 def mutate(rng, v, depth=0):
@@ -190,6 +204,33 @@ def run(ctx):
         except (TypeError, ValueError):
             continue
         pairs.append((A, {'wiring': k}, 'wiring')); chains.extend([ca, cb])
+    # a value that prints like the default of a parameter whose default is left out of the key
+    for i in range(ctx.n(60, 600)):
+        rng = ctx.rng('lookalike', i)
+        A = {'pa': gen.gen_value(rng, 0, 2, gen.SAFE, gen.SAFE)}
+        pn = rng.choice(sorted(LOOKALIKES))
+        B = {**A, pn: rng.choice(LOOKALIKES[pn])}
+        if rng.random() < 0.3:
+            q = rng.choice([x for x in sorted(LOOKALIKES) if x != pn])
+            v = rng.choice(LOOKALIKES[q]); A[q] = v; B[q] = v
+        ca = locations(mod, data, 'ca', A, tasks=CHAIN + ['K8', 'K9']); cb = locations(mod, data, 'cb', B, tasks=CHAIN + ['K8', 'K9'])
+        pairs.append((A, B, 'lookalike')); chains.extend([ca, cb])
+    # two inputs of the same task name from different namespaces, with the computations behind them swapped
+    import json as _json
+    from taskchain import Config
+    for i in range(ctx.n(30, 300)):
+        rng = ctx.rng('swap', i)
+        x = gen.gen_value(rng, 0, 2, gen.SAFE, gen.SAFE); y = mutate(rng, copy.deepcopy(x))
+        if gen.canon_json(x) == gen.canon_json(y):
+            continue
+        d = root / f'swap{i}'; d.mkdir()
+        src = f'{mod.__name__}.{pl.pyname("K0")}'
+        (d / 'p1.json').write_text(_json.dumps({'tasks': [src], 'pa': x})); (d / 'p2.json').write_text(_json.dumps({'tasks': [src], 'pa': y}))
+        top = [f'{mod.__name__}.{pl.pyname(k)}' for k in ('K10', 'K11')]
+        (d / 'ma.json').write_text(_json.dumps({'tasks': top, 'uses': [f'{d}/p1.json as a', f'{d}/p2.json as b']}))
+        (d / 'mb.json').write_text(_json.dumps({'tasks': top, 'uses': [f'{d}/p2.json as a', f'{d}/p1.json as b']}))
+        ca = Config(data, str(d / 'ma.json')).chain(); cb = Config(data, str(d / 'mb.json')).chain()
+        pairs.append(({'a::pa': x, 'b::pa': y}, {'a::pa': y, 'b::pa': x}, 'swap')); chains.extend([ca, cb])
     keys, outs = model_keys(ctx, chains)
     for pi, (A, B, how) in enumerate(pairs):
         ca, cb = chains[2 * pi], chains[2 * pi + 1]
@@ -198,7 +239,7 @@ def run(ctx):
         nontrivial = how != 'random' or (isinstance(A.get('pa'), (list, dict, str)) and bool(A.get('pa')))
         ctx.case(case, nontrivial=nontrivial)
         ctx.count(f'pair:{how}')
-        k1 = how != 'wiring' and findings.k1(A, B, ['pa', 'pb'])
+        k1 = how not in ('wiring', 'swap') and findings.k1(A, B, ['pa', 'pb'] + (sorted(LOOKALIKES) if how == 'lookalike' else []))
         ctx.count('k1-class' if k1 else 'not-k1')
         ctx.count('has-quote' if in_k1_class(A, B) else 'quote-free')
         # correspondence: literal keys of every task, both chains
@@ -208,9 +249,13 @@ def run(ctx):
                 ctx.diverge('keys', case, impl, km)
                 break
         # oracle on the real code
-        differs = how == 'wiring' or gen.canon_json({**{'pb': None}, **A}) != gen.canon_json({**{'pb': None}, **B})
+        differs = how in ('wiring', 'swap') or gen.canon_json({**{'pb': None}, **A}) != gen.canon_json({**{'pb': None}, **B})
         if how == 'wiring':
             affected = {0: ['br'], 1: ['br'], 2: ['t5']}[B['wiring']]
+        elif how == 'lookalike':
+            affected = ['dflt', 'dcons']
+        elif how == 'swap':
+            affected = ['join', 'jcons']
         else:
             affected = [n for n in ca.tasks]
         if differs:
@@ -219,8 +264,8 @@ def run(ctx):
             if same:
                 ctx.count('collision')
                 ctx.fail('two different computations share a storage location', case,
-                         {'tasks': same, 'path': str(ca.tasks[same[0]].data_path), 'repr_A': ca.tasks['g:src'].params.repr,
-                          'repr_B': cb.tasks['g:src'].params.repr}, known='K1' if k1 else None)
+                         {'tasks': same, 'path': str(ca.tasks[same[0]].data_path), 'repr_A': ca.tasks[same[0]].params.repr,
+                          'repr_B': cb.tasks[same[0]].params.repr}, known='K1' if k1 else None)
     # the recorded witness of K1 must still collide (else the finding is stale)
     ca = locations(mod, data, 'wa', {'pa': ['a', 'b']}); cb = locations(mod, data, 'wb', {'pa': ["a', 'b"]})
     ctx.case({'witness': 'K1'})
